@@ -18,7 +18,7 @@ WITNESS = {
     "remove_nan_mut": "nanview",
     "argmin": "minmax", "argmax": "minmax", "min": "minmax", "max": "minmax",
     "count_eq": "deviation", "count_neq": "deviation", "sq_l2_dist": "deviation", "l1_dist": "deviation", "linf_dist": "deviation",
-    "Histogram::add_observation": "histogram", "Histogram::new": "histogram",
+    "Histogram::add_observation": "histogram", "Histogram::new": "histogram", "histogram": "histogram",
     "weighted_sum": "means", "weighted_mean": "means", "mean": "means",
     "EquiSpaced::n_bins": "strategies",
     "EquiSpaced::build": "strategies",
@@ -279,14 +279,14 @@ PROPS.update({
     },
     "C11": {
         "level": "proof",
-        "level_text": "Verus discharges on the extracted bodies of Histogram::new, Histogram::add_observation and Histogram::ndim a representation invariant over histories: for every grid and every history of (accepted or rejected) observations, the count stored at each index tuple inside the shape equals the number of observations of the history lying in that cell (left-closed, right-open on every axis); new() establishes it for the empty history with the grid's shape; add_observation re-establishes it for the extended history, returns BinNotFound exactly when no cell contains the point and then changes nothing. Uniqueness of the cell (needed to show that no other count moves) is a proved lemma over the strictly sorted edges. The per-axis lookup Bins::index_of is proved in the bins unit. Grid::shape / Grid::index_of (iterator chains) enter with *assumed* contracts and, like the matrix form histogram() (axis_iter loop), are enumerated on the real crate: counts after every insert, rejected inserts, order independence, row-/column-major matrices",
+        "level_text": "Verus discharges on the extracted bodies of Histogram::new, Histogram::add_observation and Histogram::ndim a representation invariant over histories: for every grid and every history of (accepted or rejected) observations, the count stored at each index tuple inside the shape equals the number of observations of the history lying in that cell (left-closed, right-open on every axis); new() establishes it for the empty history with the grid's shape; add_observation re-establishes it for the extended history, returns BinNotFound exactly when no cell contains the point and then changes nothing. Uniqueness of the cell (needed to show that no other count moves) is a proved lemma over the strictly sorted edges. The per-axis lookup Bins::index_of is proved in the bins unit. The matrix form HistogramExt::histogram (one observation per row: loop over axis_iter(Axis(0))) is verified on its extracted body too: every count of the result is the number of rows of the matrix falling into that cell. Grid::shape / Grid::index_of (iterator chains) enter with *assumed* contracts and are enumerated on the real crate: counts after every insert, rejected inserts, order independence, row-/column-major matrices",
         "level_note": "trusted: ArrayD<usize> as a map from index tuples to counts (zeros, Index/IndexMut by &[usize]) - A-ND; assumed contracts of Grid::shape and Grid::index_of (checked bounded by enum:bins and enum:histogram); counts below usize::MAX (precondition). bounded: enum:histogram - grids of 1..3 axes over 5 edge sets, sequences of <= 3 (quick) / 4 (thorough) observations over 7 coordinate values per axis",
         "technique": "Verus data-structure invariant (counts == fold over the observation history) on extracted Histogram methods; bounded enumeration of grid/histogram histories",
         "design_ref": "DESIGN.md 4 (C11), 8a",
         "verus": [("bins", "N"), ("hist", "N")],
         "enum": [{"name": "histogram"}],
         "assumptions": [A_ORD, A_STD, A_VERUS, A_EXTRACT, A_ENUM, BOUNDED_NOTE],
-        "assumed_repo_fns": ["src/histogram/grid.rs Grid::shape, Grid::index_of: assumed contracts in shim/hist.rs (iterator chains outside Verus), enumerated by enum:bins / enum:histogram", "src/histogram/histograms.rs HistogramExt::histogram (axis_iter loop): bounded enumeration only"],
+        "assumed_repo_fns": ["src/histogram/grid.rs Grid::shape, Grid::index_of: assumed contracts in shim/hist.rs (iterator chains outside Verus), enumerated by enum:bins / enum:histogram", "ndarray axis_iter(Axis(0)) of a 2-D array: every row once, in index order (assumed, shim/hist.rs)"],
         "not_decided": [],
         "rule": "one case per (grid, observation sequence); non-trivial = at least one observation and every axis has at least one bin",
     },
